@@ -113,3 +113,30 @@ Proof.
   intros Hw Hb Hp. pose proof (path_le_span G tsf p Hw Hp) as H.
   pose proof (Hb (path_end (path_start p) p)). pose proof (Hb (path_start p)). lia.
 Qed.
+
+(* ---------- C10: what an accepted breakdown row guarantees ---------- *)
+Theorem brow_ok_sound clipped N r : brow_ok clipped N r = true ->
+  exists nu nv, find_node N (r_u r) = Some nu /\ find_node N (r_v r) = Some nv /\
+    r_bound r = bound_code clipped (r_ty r) (r_ev r) /\
+    (r_ty r = 0 -> exists a eu ev_, find_ev clipped (r_ev r) = Some a /\ find_ev clipped (c_ev nu) = Some eu /\ find_ev clipped (c_ev nv) = Some ev_ /\
+                   ts a <= c_ts nu /\ c_ts nv <= ts a + dur a /\ pid a = pid eu /\ tid a = tid eu /\ pid a = pid ev_ /\ tid a = tid ev_) /\
+    (r_ty r = 3 -> r_ev r = c_ev nu) /\
+    (r_ty r <> 0 -> r_ty r <> 3 -> r_ev r = -1).
+Proof.
+  unfold brow_ok. destruct (find_node N (r_u r)) as [nu|]; [|discriminate]. destruct (find_node N (r_v r)) as [nv|]; [|discriminate].
+  intro H. apply andb_prop in H. destruct H as [Hb H]. exists nu, nv. split; [reflexivity|]. split; [reflexivity|]. split; [lia|].
+  destruct (r_ty r =? 0) eqn:T0.
+  - apply Z.eqb_eq in T0. split; [|split; [intro X; exfalso; lia | intros X; exfalso; lia]]. intros _.
+    destruct (find_ev clipped (r_ev r)) as [a|]; [|discriminate]. destruct (find_ev clipped (c_ev nu)) as [eu|]; [|discriminate].
+    destruct (find_ev clipped (c_ev nv)) as [ev_|]; [|discriminate]. exists a, eu, ev_. rewrite !andb_true_iff in H. repeat split; auto; lia.
+  - apply Z.eqb_neq in T0. split; [intro X; exfalso; lia|]. destruct (r_ty r =? 3) eqn:T3.
+    + apply Z.eqb_eq in T3. split; [intros _; lia | intros _ X; exfalso; lia].
+    + apply Z.eqb_neq in T3. split; [intro X; exfalso; lia | intros _ _; lia].
+Qed.
+
+Theorem check_C10_sound clipped N cp_edges rows path_w :
+  check_C10 clipped N cp_edges rows path_w = [true; true; true] ->
+  sumZ (map r_w rows) = path_w /\ forall r, In r rows -> brow_ok clipped N r = true.
+Proof.
+  unfold check_C10. intro H. injection H as H1 H2 H3. split; [lia|]. apply forallb_forall. exact H3.
+Qed.
